@@ -17,6 +17,17 @@ CHECKS = {
     ),
 }
 
+CHECKS["C30"] = (
+    "Lean 4 theorems for every source text and every finite family of patch buffers: merged patches are pairwise "
+    "non-conflicting, sorted, duplicate-free and drawn from the inputs; slicing+building equals the splice of an ordered, "
+    "pairwise-disjoint sub-family (each applied exactly once, all others contribute nothing). Proved for an empty "
+    "source-only-slice list; the source-only handling is tied by exhaustive small-scope correspondence and the existential "
+    "splice spec is evaluated on the real output for Protected inputs (DESIGN §10).",
+    "Lean 4 proof (loop invariant over the patch list) + exhaustive small-scope differential correspondence",
+    "Lean kernel; standard axioms; sorted() stability; hand model tied by sampled correspondence; source-only slices not in the theorem",
+    "DESIGN.md §6 C30",
+)
+
 NOT_YET = {}
 
 
